@@ -28,6 +28,8 @@ NAMINGS = {
     'spaces': (dict(c1='a b', sto='a', tr=' a', c2='b '), dict(n0='0', n1='00')),
     'numeric_like': (dict(c1='12.5', sto='1e3', tr='007', c2='7'), dict(n0='007', n1='7')),
     'blanks_only_difference': (dict(c1='x', sto=' x', tr='x ', c2=' x '), dict(n0='hub', n1='hub ')),
+    'node_is_suffix_of_the_other': (dict(c1='c1', sto='s', tr='t', c2='c2'), dict(n0='hub', n1='north_hub')),
+    'node_is_prefix_of_the_other': (dict(c1='c1', sto='s', tr='t', c2='c2'), dict(n0='21', n1='2')),
 }
 QUICK_ORDERS = [(0, 1, 2, 3), (3, 2, 1, 0), (1, 0, 3, 2), (2, 3, 0, 1)]
 
@@ -58,6 +60,8 @@ def cases(tier, seed):
     for nm in ('numeric', 'numeric_like', 'blanks_only_difference'):
         out.append(('rename_%s_with_coarse_asset' % nm, dict(kind='rename', naming=nm, order=[0, 1, 2, 3], two_node=False, T=4, coarse=True)))
     out.append(('rename_and_order', dict(kind='rename', naming='numeric', order=[2, 0, 3, 1], two_node=True, T=3)))
+    for nm in ('node_is_suffix_of_the_other', 'node_is_prefix_of_the_other', 'numeric'):
+        out.append(('rename_%s_transport_with_take' % nm, dict(kind='rename', naming=nm, order=[0, 1, 2, 3], two_node=False, T=2, ext=True)))
     out.append(('list_reordered_in_place_after_construction', dict(kind='rename', naming=None, order=[3, 2, 1, 0], two_node=False, T=2, reorder_after=True)))
     out.append(('list_reordered_in_place_after_construction_renamed', dict(kind='rename', naming='numeric', order=[1, 0, 3, 2], two_node=True, T=2, reorder_after=True)))
     out.append(('many_variables_1x_x', dict(kind='rename', naming='many', order=[0, 1], two_node=False, T=12)))
@@ -100,7 +104,7 @@ def build_many_nodes(D, node_names, T):
     return pf, tg, shapes.prices_for(D, ['p', 'q'], T), {r: r for r in ('c1', 'm2', 'm3', 'c2')}, dict(n0=node_names[0], n1=node_names[1])
 
 
-def build(D, naming, order, two_node, T, wacc=False, coarse=False, many=None, reorder_after=False):
+def build(D, naming, order, two_node, T, wacc=False, coarse=False, many=None, reorder_after=False, ext=False):
     """baseline roles are the symbol names; the asset / node names are nu(role)"""
     eao = lift.import_eao()
     if many == 'nodes':
@@ -115,7 +119,11 @@ def build(D, naming, order, two_node, T, wacc=False, coarse=False, many=None, re
     # wacc: assets with DIFFERENT discount rates (two of them none) -- whatever is shared between assets must not leak between them
     c1 = shapes.mk_market(D, 'c1', n0, T, 'p', ec=True, wacc=D('wacc_c1', lo=0) if wacc else 0)
     sto = shapes.mk_storage(D, 'sto', [n0, n1] if two_node else n1, eff=0.75)
-    tr = shapes.mk_transport(D, 'tr', n0, n1, eff=0.5, wacc=D('wacc_tr', lo=0) if wacc else 0)
+    if ext:
+        # a transport with a limit on the volume taken at its sending node (restriction rows select mapping rows by node name)
+        tr = shapes.mk_transport(D, 'tr', n0, n1, eff=0.5, cls=eao.assets.ExtendedTransport, max_take=shapes.mk_take(tg, 0, T, D('tr_maxtake', lo=0)))
+    else:
+        tr = shapes.mk_transport(D, 'tr', n0, n1, eff=0.5, wacc=D('wacc_tr', lo=0) if wacc else 0)
     c2 = shapes.mk_market(D, 'c2', n1, T, 'q', **(dict(freq='2h') if coarse else {}))      # coarse: an asset with its own coarser frequency
     assets = [c1, sto, tr, c2]
     for a, r in zip(assets, ROLES):
@@ -202,8 +210,8 @@ def run_case(case_id, tier, seed, kind, **kw):
 
     def bld(D):
         if kind == 'rename':
-            pf, tg, prices, an, nn = build(D, kw['naming'], kw['order'], kw['two_node'], T, kw.get('wacc', False), kw.get('coarse', False), kw.get('many'), kw.get('reorder_after', False))
-            pf0, tg0, prices0, an0, nn0 = build(D, None, [0, 1, 2, 3], kw['two_node'], T, kw.get('wacc', False), kw.get('coarse', False), kw.get('many'))
+            pf, tg, prices, an, nn = build(D, kw['naming'], kw['order'], kw['two_node'], T, kw.get('wacc', False), kw.get('coarse', False), kw.get('many'), kw.get('reorder_after', False), kw.get('ext', False))
+            pf0, tg0, prices0, an0, nn0 = build(D, None, [0, 1, 2, 3], kw['two_node'], T, kw.get('wacc', False), kw.get('coarse', False), kw.get('many'), False, kw.get('ext', False))
             ren = renamer(an, nn)
             colmap = dict(assets=an, nodes=nn)
         elif kind == 'inner':
@@ -308,8 +316,8 @@ def observe(case, kwargs, env, rq):
     kind = kw.pop('kind')
     T = kw['T']
     if kind == 'rename':
-        pf, tg, prices, an, nn = build(D, kw['naming'], kw['order'], kw['two_node'], T, kw.get('wacc', False), kw.get('coarse', False), kw.get('many'), kw.get('reorder_after', False))
-        pf0, tg0, prices0, _, _ = build(D, None, [0, 1, 2, 3], kw['two_node'], T, kw.get('wacc', False), kw.get('coarse', False), kw.get('many'))
+        pf, tg, prices, an, nn = build(D, kw['naming'], kw['order'], kw['two_node'], T, kw.get('wacc', False), kw.get('coarse', False), kw.get('many'), kw.get('reorder_after', False), kw.get('ext', False))
+        pf0, tg0, prices0, _, _ = build(D, None, [0, 1, 2, 3], kw['two_node'], T, kw.get('wacc', False), kw.get('coarse', False), kw.get('many'), False, kw.get('ext', False))
     elif kind == 'inner':
         pf, tg, prices = build_inner(D, kw['which'], kw['order'], T)
         pf0, tg0, prices0 = build_inner(D, kw['which'], sorted(kw['order']), T)
